@@ -13,6 +13,7 @@ source and `Props/C19.lean` proves `HasDerivAt` about exactly those terms) AND c
                expectation parameters, and vs the exact Lean model (naturalBackward, choleskyBackward over Rat);
   CIQ          _NgdInterpTerms.backward vs autograd of the explicit dense map, and vs the Lean model (data terms).
 """
+import json
 import math
 import os
 import sys
@@ -23,11 +24,13 @@ from props import c05 as K5
 
 ID = "C19"
 PROP_MODULES = ["GPVerif.Props.C19"]
-BUILD_TARGETS = ["GPVerif.Props.C19", "GPVerif.Gen.Formulas", "GPVerif.Model.Kernels", "GPVerif.Model.NaturalGrad"]
+BUILD_TARGETS = ["GPVerif.Props.C19", "GPVerif.Gen.Formulas", "GPVerif.Model.Kernels", "GPVerif.Model.NaturalGrad",
+                 "GPVerif.Gen.NaturalGrad", "GPVerif.Model.NaturalGradDriver"]
 RULE = ("random rows (incl. coincident points, dist = 0), lengthscales, upstream gradient tensors, batch shapes, "
         "nu in {1/2,3/2,5/2}; CDF arguments on a grid over [-40,10] plus both sides of every branch boundary; random "
         "SPD natural parameters; distinct = distinct (function, inputs); non-trivial = non-zero upstream gradient")
-TRUSTED = ["translator harness/translate/g5_formulas.py", "torch.autograd (used as the differentiation oracle of the "
+TRUSTED = ["translator harness/translate/g5_formulas.py", "translator harness/translate/g5_natgrad.py (differentially tested on "
+           "every run: the driver executes the generated definitions next to the model, exact equality required)", "torch.autograd (used as the differentiation oracle of the "
            "independent dense re-implementations)", "mpmath normal pdf/cdf at 60 digits"]
 ASSUMPTIONS = ["float64 only", "central differences with h = 1e-6 are accurate to 1e-6 relative on the smooth test functions",
                "linear_cg inside _NgdInterpTerms.forward converges to 1e-10 on the well-conditioned test problems "
@@ -35,10 +38,34 @@ ASSUMPTIONS = ["float64 only", "central differences with h = 1e-6 are accurate t
 EXHAUSTIVE = False
 
 GEN = K5.GEN
+GEN_NG = os.path.join(C.LEAN_DIR, "GPVerif", "Gen", "NaturalGrad.lean")
+
+
+def _typecheck_candidate(text):
+    """type-check a candidate Gen/NaturalGrad.lean (copy under lean/.audit) before it replaces the current file"""
+    import subprocess
+    d = os.path.join(C.LEAN_DIR, ".audit")
+    os.makedirs(d, exist_ok=True)
+    path = os.path.join(d, "NaturalGrad_candidate.lean")
+    with open(path, "w") as fh:
+        fh.write(text)
+    try:
+        r = subprocess.run(["lake", "env", "lean", os.path.join(".audit", "NaturalGrad_candidate.lean")], cwd=C.LEAN_DIR,
+                           capture_output=True, text=True, timeout=900)
+    finally:
+        try:
+            os.remove(path)
+        except OSError:
+            pass
+    bad = [l for l in (r.stdout + r.stderr).splitlines() if ": error" in l]
+    return None if r.returncode == 0 and not bad else "; ".join(bad[:3])[:600] or f"lean exited with {r.returncode}"
 
 
 def generate(ctx):
     K5.generate(ctx)
+    sys.path.insert(0, os.path.join(C.VERIF, "harness"))
+    from translate import g5_natgrad
+    ctx.notes["gen_natgrad_changed"] = g5_natgrad.generate(C.REPO, GEN_NG, check=_typecheck_candidate)
 
 
 def _t(x, **kw):
@@ -170,17 +197,20 @@ def kernel_gradients(ctx, rng, q):
         for name, desc, hs, go, sc, dl, extra, gf, gg, gr, o1, o2, oref in work:
             B = len(hs)
             lean_g, fd_g = [], []
-            for b, (f, kp, km, h) in enumerate(hs):
+            have_lean = q.ok(hs[0][0])
+            for b, (f, kp, km, h) in enumerate(hs if have_lean else []):
                 mats = K5.parse_bits(q[f])
                 lean_g.append(float((go[b] * mats[1]).sum()) * sc[b] * dl[b])
                 Kp, Km = K5.parse_bits(q[kp])[0], K5.parse_bits(q[km])[0]
                 fd_g.append(float((go[b] * (Kp - Km)).sum()) / (2 * h) * sc[b] * dl[b])
             lean_g, fd_g = np.array(lean_g), np.array(fd_g)
-            sc_ = max(1.0, float(np.abs(lean_g).max()))
+            sc_ = max(1.0, float(np.abs(lean_g if have_lean else gr[0]).max()))
 
             def bad(a, b, rtol, atol):
                 return not np.allclose(a, b, rtol=rtol, atol=atol * sc_)
-            if bad(gf[0], lean_g, 1e-8, 1e-10):
+            if not have_lean:
+                pass
+            elif bad(gf[0], lean_g, 1e-8, 1e-10):
                 ctx.fail(f"{name}.backward/lengthscale-grad",
                          f"{name}: d/d raw_lengthscale through the public call is {gf[0].tolist()}, the derivative of the "
                          f"forward term (Σ grad_output·d_output_d_input, Lean) is {lean_g.tolist()}", desc)
@@ -310,6 +340,243 @@ def input_gradients(ctx, rng):
                             ctx.fail(f"generic-path/d-{nm}/{fam}/{mode}",
                                      f"{fam} ({mode}, grad required on {req}): d(Σ go·k)/d{nm} is {g.tolist()}, the dense formula "
                                      f"gives {r_.tolist()}", payload)
+
+
+# ------------------------------------------------------------------------------------------- in-place histories
+
+_INPLACE_ERR = ("modified by an inplace operation", "a view of a leaf Variable", "is a view and is being modified inplace",
+                "that requires grad is being used in an in-place operation")
+
+
+def _inplace_refused(e):
+    return any(t in str(e) for t in _INPLACE_ERR)
+
+
+def output_inplace(ctx, rng, deep=False):
+    """History class on ONE result of a hand-written autograd Function: forward, then (a) the OUTPUT tensor is
+    post-processed in place (autograd-tracked `mul_`, `add_`: K *= outputscale, K += jitter) or (b) an INPUT tensor
+    is modified in place, and only then backward runs.  The gradient must still be the derivative of what was computed
+    (closed form / explicit dense map; for (a) the upstream factor becomes s·go), or autograd must refuse with its
+    in-place error — never a silently different number.  Catches backward passes that read the forward's output or
+    input OBJECTS (ctx attributes) instead of tensors saved with `save_for_backward`."""
+    import numpy as np
+    import torch
+    import gpytorch
+    import gpytorch.kernels as GK
+    from gpytorch.functions import MaternCovariance, RBFCovariance
+    from gpytorch.functions._log_normal_cdf import LogNormalCDF
+    from gpytorch.kernels.kernel import dist, sq_dist
+    from gpytorch.variational.natural_variational_distribution import _NaturalToMuVarSqrt
+    from gpytorch.variational.tril_natural_variational_distribution import _TrilNaturalToMuVarSqrt
+    from gpytorch.variational.ciq_variational_strategy import _NgdInterpTerms
+    reps = (3 if ctx.quick else 20) * (3 if deep else 1)
+
+    def judge(key, what, payload, run, ref, rtol=1e-8, atol=1e-10):
+        """run() -> list of arrays (may raise autograd's in-place error), ref = list of arrays"""
+        try:
+            with warnings.catch_warnings():
+                warnings.simplefilter("ignore")
+                got = run()
+        except RuntimeError as e:
+            if _inplace_refused(e):
+                ctx.count("inplace_refused_by_autograd")
+                return
+            raise
+        ctx.count("inplace_gradient_compared")
+        sc = max([1.0] + [float(np.abs(r).max()) for r in ref if r.size])
+        for g, r in zip(got, ref):
+            if g.shape != r.shape or not np.allclose(g, r, rtol=rtol, atol=atol * sc):
+                ctx.fail(key, f"{what}: gradient {np.asarray(g).reshape(-1).tolist()} but the derivative of what was computed is "
+                         f"{np.asarray(r).reshape(-1).tolist()}", payload)
+                return
+
+    # ---- RBFCovariance / MaternCovariance: direct Function and public kernel call
+    for rep in range(reps):
+        for fam, nu2 in (("rbf", None), ("matern", 1), ("matern", 3), ("matern", 5)):
+            name = "RBFCovariance" if fam == "rbf" else f"MaternCovariance(nu={nu2 / 2})"
+            d = rng.randint(1, 3)
+            n1, n2 = rng.sample([x for x in (2, 3, 4, 5) if x != d], 2)
+            x1, x2 = K5.rand_x(rng, n1, d), K5.rand_x(rng, n2, d)
+            same = rng.random() < 0.3
+            if rng.random() < 0.4 and not same:
+                x2[0] = list(x1[0])
+            ell = K5.logu(rng, 0.4, 2.5)
+            s_, c_ = K5.logu(rng, 0.3, 4.0) * rng.choice([-1, 1]), rng.uniform(-1, 1)
+            go = _t(K5.rand_x(rng, n1, n1 if same else n2))
+            for how in ("direct", "public"):
+                for edit in ("output.mul_", "output.add_", "output.mul_.add_", "x1.mul_", "x2.add_", "lengthscale.mul_"):
+                    if edit == "lengthscale.mul_" and how == "public":
+                        continue
+                    if edit == "x2.add_" and same:
+                        continue
+                    X1 = _t(x1)
+                    X2 = X1 if same else _t(x2)
+                    X1o, X2o = X1.clone(), X2.clone()
+                    if how == "direct":
+                        leaf = _t([[ell]], requires_grad=True)
+                        ls = leaf * 1.0
+
+                        def fwd():
+                            if fam == "rbf":
+                                return RBFCovariance.apply(X1, X2, ls, lambda a, b: sq_dist(a, b, False))
+                            return MaternCovariance.apply(X1, X2, ls, nu2 / 2.0, lambda a, b: dist(a, b, False))
+                        rleaf = _t([[ell]], requires_grad=True)
+                        rell = rleaf
+                    else:
+                        base = (GK.RBFKernel() if fam == "rbf" else GK.MaternKernel(nu=nu2 / 2.0)).double()
+                        base.lengthscale = _t([[ell]])
+                        leaf, ls = base.raw_lengthscale, None
+
+                        def fwd():
+                            return (base(X1) if same else base(X1, X2)).to_dense()
+                        rleaf = base.raw_lengthscale.detach().clone().requires_grad_(True)
+                        rell = torch.nn.functional.softplus(rleaf)
+                    seff, ceff = (s_ if "mul_" in edit and edit.startswith("output") else 1.0), \
+                        (c_ if "add_" in edit and edit.startswith("output") else 0.0)
+                    ref_K = _dense_ref(fam, nu2, X1o, X2o, rell) * seff + ceff
+                    ref = [torch.autograd.grad(ref_K, rleaf, grad_outputs=go)[0].numpy()]
+                    box = {}
+
+                    def run():
+                        K = fwd()
+                        if edit.startswith("output"):
+                            if "mul_" in edit:
+                                K.mul_(s_)
+                            if "add_" in edit:
+                                K.add_(c_)
+                        elif edit == "x1.mul_":
+                            X1.mul_(1.5)
+                        elif edit == "x2.add_":
+                            X2.add_(0.7)
+                        else:
+                            ls.mul_(2.0)
+                        box["K"] = K.detach().numpy().copy()
+                        return [torch.autograd.grad(K, leaf, grad_outputs=go)[0].numpy()]
+                    payload = {"function": name, "call": how, "edit": edit, "x1": x1, "x2": None if same else x2, "ell": ell,
+                               "scale": s_, "shift": c_, "grad_output": go.tolist()}
+                    ctx.case({"inplace": payload}, sample={"function": name, "history": "forward; " + edit + "; backward",
+                                                           "call": how})
+                    cls = "output-modified-in-place" if edit.startswith("output") else "input-modified-after-forward"
+                    judge(f"{name}.backward/{cls}", f"{name} ({how} call; forward, then `{edit}`, then backward)", payload, run, ref)
+                    if "K" in box and edit.startswith("output") and \
+                            not np.allclose(box["K"], ref_K.detach().numpy(), rtol=1e-8, atol=1e-6 if fam == "matern" else 1e-9):
+                        ctx.fail(f"{name}/value-after-in-place-edit", f"{name}: s·K + c computed in place differs from the dense formula",
+                                 payload)
+
+    # ---- LogNormalCDF
+    import mpmath
+    mpmath.mp.dps = 40
+    for rep in range(reps):
+        zs = [rng.uniform(-8, 4) for _ in range(6)] + [-1.0 - rng.random() * 1e-3, -1.0 + rng.random() * 1e-3]
+        go = _t([rng.uniform(0.5, 2.0) * rng.choice([-1, 1]) for _ in zs])
+        s_, c_ = K5.logu(rng, 0.3, 4.0), rng.uniform(-1, 1)
+        for edit in ("output.mul_.add_", "input.mul_"):
+            z = _t(zs, requires_grad=True)
+            zz = z * 1.0
+
+            def run():
+                out = LogNormalCDF.apply(zz)
+                if edit.startswith("output"):
+                    out.mul_(s_).add_(c_)
+                else:
+                    zz.mul_(2.0)
+                return [torch.autograd.grad(out, z, grad_outputs=go)[0].numpy()]
+            f = s_ if edit.startswith("output") else 1.0
+            ref = [np.array([float(mpmath.npdf(v) / mpmath.ncdf(v)) * f * g for v, g in zip(zs, go.tolist())])]
+            payload = {"function": "LogNormalCDF", "edit": edit, "z": zs, "scale": s_, "shift": c_, "grad_output": go.tolist()}
+            ctx.case({"inplace": payload}, sample={"function": "LogNormalCDF", "history": "forward; " + edit + "; backward"})
+            judge("LogNormalCDF.backward/" + ("output-modified-in-place" if edit.startswith("output") else "input-modified-after-forward"),
+                  f"LogNormalCDF (forward, then `{edit}`, then backward)", payload, run, ref, rtol=2e-3, atol=1e-9)
+
+    # ---- natural / tril-natural / CIQ Functions
+    for rep in range(reps):
+        n = rng.randint(2, 4)
+        Sig, mu = _rand_spd(rng, n), _t([rng.gauss(0, 1) for _ in range(n)])
+        prec = torch.linalg.inv(Sig)
+        gmu = _t([rng.gauss(0, 1) for _ in range(n)])
+        gL = torch.tril(_t([[rng.gauss(0, 1) for _ in range(n)] for _ in range(n)]))
+        s1, s2 = K5.logu(rng, 0.3, 3.0), K5.logu(rng, 0.3, 3.0) * rng.choice([-1, 1])
+        cond = float(torch.linalg.cond(Sig))
+        for fn_name in ("_NaturalToMuVarSqrt", "_TrilNaturalToMuVarSqrt"):
+            for edit in ("mean.mul_", "chol.mul_", "both.mul_", "input1.mul_", "input2.mul_"):
+                l1 = (prec @ mu).clone().requires_grad_(True)
+                l2 = (-0.5 * prec if fn_name == "_NaturalToMuVarSqrt" else torch.linalg.inv(torch.linalg.cholesky(Sig))) \
+                    .clone().requires_grad_(True)
+                a, c = l1 * 1.0, l2 * 1.0
+                f1 = s1 if edit in ("mean.mul_", "both.mul_") else 1.0
+                f2 = s2 if edit in ("chol.mul_", "both.mul_") else 1.0
+
+                def run():
+                    F = _NaturalToMuVarSqrt if fn_name == "_NaturalToMuVarSqrt" else _TrilNaturalToMuVarSqrt
+                    m_out, L_out = F.apply(a, c)
+                    if f1 != 1.0:
+                        m_out.mul_(s1)
+                    if f2 != 1.0:
+                        L_out.mul_(s2)
+                    if edit == "input1.mul_":
+                        a.mul_(2.0)
+                    if edit == "input2.mul_":
+                        c.mul_(2.0)
+                    return [g.numpy() for g in torch.autograd.grad([m_out, L_out], [l1, l2], grad_outputs=[gmu, gL])]
+                # reference: the same Function, upstream scaled, nothing modified in place (tied to the explicit
+                # expectation-parameter map by the `natural` stream on every run)
+                F = _NaturalToMuVarSqrt if fn_name == "_NaturalToMuVarSqrt" else _TrilNaturalToMuVarSqrt
+                r1 = (prec @ mu).clone().requires_grad_(True)
+                r2 = l2.detach().clone().requires_grad_(True)
+                mo, Lo = F.apply(r1, r2)
+                ref = [g.numpy() for g in torch.autograd.grad([mo, Lo], [r1, r2], grad_outputs=[f1 * gmu, f2 * gL])]
+                payload = {"function": fn_name, "edit": edit, "Sigma": Sig.tolist(), "mu": mu.tolist(), "dout_dmu": gmu.tolist(),
+                           "dout_dL": gL.tolist(), "s_mean": s1, "s_chol": s2}
+                ctx.case({"inplace": payload}, sample={"function": fn_name, "history": "forward; " + edit + "; backward"})
+                judge(f"{fn_name}.backward/" + ("input-modified-after-forward" if edit.startswith("input") else "output-modified-in-place"),
+                      f"{fn_name} (forward, then `{edit}`, then backward)", payload, run, ref, rtol=1e-9 * cond, atol=1e-10 * cond)
+        nb = rng.randint(1, 3)
+        kk = _t([[rng.gauss(0, 1) for _ in range(nb)] for _ in range(n)])
+        gm, gv, gk = _t([rng.gauss(0, 1) for _ in range(nb)]), _t([rng.gauss(0, 1) for _ in range(nb)]), _t(rng.gauss(0, 1))
+        for edit in ("mean.mul_", "var.mul_.add_", "kl.add_", "interp_term.mul_", "natural_vec.mul_", "natural_mat.mul_"):
+            li, lv, lm = kk.clone().requires_grad_(True), (prec @ mu).clone().requires_grad_(True), \
+                (-0.5 * prec).clone().requires_grad_(True)
+            ti, tv, tm = li * 1.0, lv * 1.0, lm * 1.0
+            fm = s1 if edit == "mean.mul_" else 1.0
+            fv = s2 if edit == "var.mul_.add_" else 1.0
+
+            def cg():
+                return gpytorch.settings.cg_tolerance(1e-13), gpytorch.settings.eval_cg_tolerance(1e-13), \
+                    gpytorch.settings.max_cg_iterations(200)
+
+            def run():
+                a_, b_, c_ = cg()
+                with a_, b_, c_:
+                    im, iv, kl = _NgdInterpTerms.apply(ti, tv, tm)
+                    if edit == "mean.mul_":
+                        im.mul_(s1)
+                    elif edit == "var.mul_.add_":
+                        iv.mul_(s2).add_(0.3)
+                    elif edit == "kl.add_":
+                        kl.add_(1.0)
+                    elif edit == "interp_term.mul_":
+                        ti.mul_(2.0)
+                    elif edit == "natural_vec.mul_":
+                        tv.mul_(2.0)
+                    else:
+                        tm.mul_(2.0)
+                    return [g.numpy() for g in torch.autograd.grad([im, iv, kl], [li, lv, lm], grad_outputs=[gm, gv, gk])]
+            # reference: the explicit dense map of the expectation parameters (as in the `ciq` stream)
+            k_ = kk.clone().requires_grad_(True)
+            e1 = mu.clone().requires_grad_(True)
+            e2 = (Sig + mu.unsqueeze(-1) @ mu.unsqueeze(-2)).clone().requires_grad_(True)
+            S_ = e2 - e1.unsqueeze(-1) @ e1.unsqueeze(-2)
+            mean_ = (k_.transpose(-1, -2) @ e1.unsqueeze(-1)).squeeze(-1)
+            var_ = (k_ * (S_ @ k_)).sum(-2)
+            kl_ = 0.5 * (-torch.logdet(S_) + e2.diagonal(dim1=-1, dim2=-2).sum(-1) - n)
+            rr = torch.autograd.grad([mean_, var_, kl_], [k_, e1, e2], grad_outputs=[fm * gm, fv * gv, gk])
+            ref = [rr[0].numpy(), rr[1].numpy(), (0.5 * (rr[2] + rr[2].T)).numpy()]
+            payload = {"function": "_NgdInterpTerms", "edit": edit, "S": Sig.tolist(), "m": mu.tolist(), "k": kk.tolist(),
+                       "gm": gm.tolist(), "gv": gv.tolist(), "gk": gk.item(), "s_mean": s1, "s_var": s2}
+            ctx.case({"inplace": payload}, sample={"function": "_NgdInterpTerms", "history": "forward; " + edit + "; backward"})
+            judge("_NgdInterpTerms.backward/" + ("output-modified-in-place" if edit.split(".")[0] in ("mean", "var", "kl")
+                                                 else "input-modified-after-forward"),
+                  f"_NgdInterpTerms (forward, then `{edit}`, then backward)", payload, run, ref, rtol=1e-7 * cond, atol=1e-8 * cond)
 
 
 # ------------------------------------------------------------------------------------------- predictions
@@ -449,7 +716,7 @@ def natural(ctx, rng, q):
     from gpytorch.variational.tril_natural_variational_distribution import (_TrilNaturalToMuVarSqrt,
                                                                              TrilNaturalVariationalDistribution)
     reps = 10 if ctx.quick else 100
-    work = []
+    work, gwork = [], []
     for rep in range(reps):
         batch = rng.choice([None, 2, 3])
         B = batch or 1
@@ -525,6 +792,10 @@ def natural(ctx, rng, q):
                 h2 = q.ask(f"NB {K5.mat([[v] for v in sel(gmu).tolist()])} {K5.mat(sel(dS).tolist())} "
                            f"{K5.mat([[v] for v in sel(m_out.detach()).tolist()])}")
                 work.append((h1, h2, sel(dS).numpy(), sel(g1).numpy(), sel(g2).numpy(), cond, desc))
+                # regenerated `_NaturalToMuVarSqrt._backward` (and the model) on the same tensors
+                h3 = q.ask(f"GB {K5.mat([[v] for v in sel(gmu).tolist()])} {K5.mat(sel(gL).tolist())} "
+                           f"{K5.mat([[v] for v in sel(m_out.detach()).tolist()])} {K5.mat(sel(Lr).tolist())} {K5.mat(sel(Cr).tolist())}")
+                gwork.append(("_NaturalToMuVarSqrt", h3, sel(g1).numpy(), sel(g2).numpy(), None, None, cond, desc))
             # ---- tril-natural: same natural gradient for eta1; the second output is the tangent of
             #      theta_cov -> C (C^T C = -2 theta_cov, C lower) in the direction of the natural gradient
             #      natural_tril_mat = D·inv(chol Sigma) for ANY sign pattern D on the diagonal is a legal parameter
@@ -560,6 +831,22 @@ def natural(ctx, rng, q):
                     ctx.fail(f"_TrilNaturalToMuVarSqrt.backward/{signs}-diagonal",
                              f"(forward ok: {okf}) (d/deta1, tangent of C) differ from the reference by "
                              f"{(t1 - s1).abs().max().item():.3e}, {(t2 - jv).abs().max().item():.3e} (tol {tol:.1e}, {tol2:.1e})", dsc)
+                # the PROVED characterisation (`tril_backward_tangent`): dout_dtril is lower triangular and solves the
+                # linearised constraint  Ċᵀ C + Cᵀ Ċ = −2 G  with G = the expectation gradient dout_dnat2 (= s2)
+                lin = t2.transpose(-1, -2) @ Cm + Cm.transpose(-1, -2) @ t2 + 2.0 * s2
+                up = torch.triu(t2, diagonal=1).abs().max().item() if n > 1 else 0.0
+                lsc = max(1.0, float(s2.abs().max()), float(t2.abs().max()) * float(Cm.abs().max()))
+                if up > 1e-12 * lsc or float(lin.abs().max()) > 1e-9 * cond * lsc:     # (torch.linalg.inv leaves 1e-17 above the diagonal of C)
+                    ctx.fail("_TrilNaturalToMuVarSqrt.backward/second-output/linearised-constraint",
+                             f"dout_dtril is not the tangent of theta -> C: strictly-upper part {up:.3e}, residual of "
+                             f"Ċ^T C + C^T Ċ = -2 G: {float(lin.abs().max()):.3e} (tol {1e-9 * cond * lsc:.1e})", dsc)
+                # exact Lean evaluation (generated code and model) on the very tensors the real backward sees
+                L2d = L2.detach()
+                for b in range(B):
+                    sel = (lambda t: t[b]) if batch else (lambda t: t)
+                    h4 = q.ask(f"GB {K5.mat([[v] for v in sel(gmu).tolist()])} {K5.mat(sel(gL).tolist())} "
+                               f"{K5.mat([[v] for v in sel(m2.detach()).tolist()])} {K5.mat(sel(L2d).tolist())} {K5.mat(sel(Cm).tolist())}")
+                    gwork.append(("_TrilNaturalToMuVarSqrt", h4, None, None, sel(t1).numpy(), sel(t2).numpy(), cond, dsc))
     # through the public modules: gradient of a loss of (mean, covariance) lands in natural_vec.grad / natural_mat.grad.
     # Objectives that use the mean only, the covariance only (weighted sum / trace / logdet / variance), or both;
     # tril parameterisation with positive and with mixed-sign diagonals.
@@ -622,6 +909,8 @@ def natural(ctx, rng, q):
 
     def finish():
         for h1, h2, dS, g1, g2, cond, desc in work:
+            if not q.ok(h1):
+                break
             cb = np.array(C.fmat_to_float(K5.parse_rat(q[h1])))
             parts = q[h2].split(";")
             nb1 = np.array(C.fmat_to_float(K5.parse_rat(parts[0]))).reshape(-1)
@@ -632,7 +921,41 @@ def natural(ctx, rng, q):
             if np.abs(nb1 - g1).max() > 1e-12 * max(1.0, float(np.abs(nb1).max())) * max(1.0, cond):
                 ctx.fail("_NaturalToMuVarSqrt._backward/model", f"dout_deta1 differs from dout_dmu - 2 dout_dSigma mu "
                          f"(exact) by {np.abs(nb1 - g1).max():.3e}", desc)
+        mism = 0
+        for fn, h, g1, g2, t1, t2, cond, desc in gwork:
+            if not q.ok(h):
+                break
+            gen, model = _split_reply(q[h])
+            m1, m2_, m3 = [np.array(C.fmat_to_float(K5.parse_rat(p))) for p in model]
+            ctx.count("natgrad_exact_cases")
+            if gen is not None and [gen[0], gen[1], gen[2], gen[3]] != [model[0], model[1], model[0], model[2]]:
+                mism += 1
+                if mism == 1:
+                    ctx.broke("correspondence", "generated _backward / _TrilNaturalToMuVarSqrt.backward vs model",
+                              f"Gen/NaturalGrad.lean and Model/NaturalGrad.lean differ on {json.dumps(desc)[:600]}")
+
+            def off(a, b):
+                return float(np.abs(np.asarray(a).reshape(b.shape) - b).max()) > 1e-11 * max(1.0, float(np.abs(b).max())) * max(1.0, cond)
+            if fn == "_NaturalToMuVarSqrt":
+                if off(g1, m1) or off(g2, m2_):
+                    ctx.fail("_NaturalToMuVarSqrt.backward/exact", "returned (dout_deta1, dout_deta2) differ from the exact value of "
+                             "(dout_dmu − 2·G·mu, G), G = sym(L^-T Φ(L^T dout_dL) L^-1), on the same saved tensors", desc)
+            else:
+                if off(t1, m1):
+                    ctx.fail("_TrilNaturalToMuVarSqrt.backward/first-output/exact", "dout_dnat1 differs from the exact value of "
+                             "dout_dmu − 2·G·mu on the same saved tensors", desc)
+                if off(t2, m3):
+                    ctx.fail("_TrilNaturalToMuVarSqrt.backward/second-output/exact",
+                             f"dout_dtril differs from the exact value of Φ(−2·L^T G L)·C (the proved tangent) on the same saved "
+                             f"tensors by {float(np.abs(t2 - m3).max()):.3e}", desc)
     return finish
+
+
+def _split_reply(reply):
+    """'gen ; … | model ; …' -> (list of gen parts or None when the fallback driver answered, list of model parts)"""
+    g, m = reply.split("|")
+    norm = lambda p: " ".join(p.split())
+    return (None if g.strip() == "nogen" else [norm(p) for p in g.split(";")]), [norm(p) for p in m.split(";")]
 
 
 # ------------------------------------------------------------------------------------------- CIQ
@@ -643,7 +966,7 @@ def ciq(ctx, rng, q):
     import gpytorch
     from gpytorch.variational.ciq_variational_strategy import _NgdInterpTerms
     reps = 10 if ctx.quick else 100
-    work = []
+    work, xwork = [], []
     for rep in range(reps):
         batch = rng.choice([None, 2, 3])
         B = batch or 1
@@ -660,6 +983,8 @@ def ciq(ctx, rng, q):
         elif shared:
             S, m = S[0], m[0]
         prec = torch.linalg.inv(S)
+        prec = 0.5 * (prec + prec.transpose(-1, -2))     # exactly symmetric natural matrix (hypothesis of the theorems;
+        #                                                  the exact generated-vs-model comparison needs it bit for bit)
         nat_vec = (prec @ m.unsqueeze(-1)).squeeze(-1)
         nat_mat = -0.5 * prec
         it = kk.clone().requires_grad_(True)
@@ -714,6 +1039,17 @@ def ciq(ctx, rng, q):
             ctx.fail(f"_NgdInterpTerms.backward/{which}",
                      f"returned gradients differ from autograd of the explicit map (k, eta1, eta2) -> (k^T m, k^T S k, KL) by "
                      f"{errs} (tol {tol:.1e})", desc)
+        # exact Lean evaluation of the REGENERATED forward + backward and of the model (all data points, KL terms
+        # included — the expressions `ngd_backward_expec_hasDerivAt` / `_interp_hasDerivAt` are about)
+        for b in range(B):
+            sel = (lambda t: t[b]) if batch else (lambda t: t)
+            if shared:
+                break
+            hx = q.ask(f"NGDX {K5.mat(sel(kk).tolist())} {K5.mat([[v] for v in sel(nat_vec).tolist()])} "
+                       f"{K5.mat(sel(nat_mat).tolist())} {K5.mat([[v] for v in sel(gm).tolist()])} "
+                       f"{K5.mat([[v] for v in sel(gv).tolist()])} {K5.num(sel(gk).item())}")
+            xwork.append((hx, [sel(im).detach().numpy(), sel(iv).detach().numpy(), sel(g_it).numpy(), sel(g_nv).numpy(),
+                               sel(g_nm).numpy()], cond, desc))
         # Lean model: data terms only (one data point, no KL), exact
         for b in range(B):
             sel = (lambda t: t[b]) if batch else (lambda t: t)
@@ -737,6 +1073,8 @@ def ciq(ctx, rng, q):
 
     def finish():
         for h, b1, b2, cond, desc in work:
+            if not q.ok(h):
+                break
             parts = q[h].split(";")
             v = np.array(C.fmat_to_float(K5.parse_rat(parts[0]))).reshape(-1)
             M = np.array(C.fmat_to_float(K5.parse_rat(parts[1])))
@@ -744,6 +1082,29 @@ def ciq(ctx, rng, q):
             if np.abs(v - b1).max() > 1e-8 * cond * sc or np.abs(M - b2).max() > 1e-8 * cond * sc:
                 ctx.fail("_NgdInterpTerms.backward/model", f"data-term gradients differ from (-2 gv (k^T m) k + gm k, gv k k^T) by "
                          f"{np.abs(v - b1).max():.3e}, {np.abs(M - b2).max():.3e}", desc)
+        names = ["forward/interp_mean", "forward/interp_var", "backward/exact/interp_term", "backward/exact/expec_vec",
+                 "backward/exact/expec_mat"]
+        mism = 0
+        for h, real, cond, desc in xwork:
+            if not q.ok(h):
+                break
+            if q[h].strip() == "singular":
+                ctx.count("ciq_exact_singular")
+                continue
+            gen, model = _split_reply(q[h])
+            ctx.count("ciq_exact_cases")
+            if gen is not None and gen != model:
+                mism += 1
+                if mism == 1:
+                    ctx.broke("correspondence", "generated _NgdInterpTerms.forward/backward vs model",
+                              f"Gen/NaturalGrad.lean and Model/NaturalGrad.lean differ on {json.dumps(desc)[:600]}")
+            for nm, r_, part in zip(names, real, model):
+                ex = np.array(C.fmat_to_float(K5.parse_rat(part))).reshape(r_.shape)
+                sc = max(1.0, float(np.abs(ex).max()))
+                if float(np.abs(ex - r_).max()) > 1e-8 * cond * sc:
+                    ctx.fail(f"_NgdInterpTerms.{nm}", f"_NgdInterpTerms: {nm.split('/')[-1]} = {r_.reshape(-1).tolist()}, the exact "
+                             f"value of the proved expression (all data points, KL terms included) is {ex.reshape(-1).tolist()}", desc)
+                    break
     return finish
 
 
@@ -756,13 +1117,32 @@ class Q2:
         self.k, self.l = K5.Q(), K5.Q()
 
     def ask(self, line):
-        if line.split(" ", 1)[0] in ("NB", "CB", "NGD"):
+        if line.split(" ", 1)[0] in ("NB", "CB", "NGD", "GB", "NGDX"):
             return ("l", self.l.ask(line))
         return ("k", self.k.ask(line))
 
     def run(self):
-        self.k.run()
-        self.l.replies = C.run_driver("C19", self.l.lines) if self.l.lines else []
+        """A driver that no longer builds / runs (e.g. a regenerated definition changed its signature) is a broken
+        tie, not the end of the run: its Lean-side comparisons are skipped (`replies is None`), every comparison against
+        closed forms / dense re-implementations still runs."""
+        self.errors = []
+        try:
+            self.k.run()
+        except RuntimeError as e:
+            self.k.replies = None
+            self.errors.append(("drivers/C05.lean (generated kernel terms)", str(e)[:600]))
+        try:
+            self.l.replies = C.run_driver("C19", self.l.lines) if self.l.lines else []
+        except RuntimeError as e:
+            self.errors.append(("drivers/C19.lean", str(e)[:600]))
+            try:        # hand-written model only
+                self.l.replies = C.run_driver("C19spec", self.l.lines) if self.l.lines else []
+            except RuntimeError as e2:
+                self.l.replies = None
+                self.errors.append(("drivers/C19spec.lean", str(e2)[:600]))
+
+    def ok(self, h):
+        return (self.k if h[0] == "k" else self.l).replies is not None
 
     def __getitem__(self, h):
         return (self.k if h[0] == "k" else self.l)[h[1]]
@@ -778,9 +1158,12 @@ def correspondence(ctx):
             ciq(ctx, ctx.rng("ciq"), q)]
     prediction_gradients(ctx, ctx.rng("pred"))
     input_gradients(ctx, ctx.rng("inputgrad"))
+    output_inplace(ctx, ctx.rng("inplace"))
     lncdf(ctx, ctx.rng("lncdf"))
     q.run()
     ctx.count("driver_lines", len(q.k.lines) + len(q.l.lines))
+    for which, err in q.errors:
+        ctx.broke("driver", which, err)
     for f in fins:
         f()
     if ctx.counters.get("fast_path_not_used"):
@@ -797,6 +1180,8 @@ def search(ctx, broken):
     K5._search_gradients(ctx, ctx.rng("search"))
     if not ctx.failures:
         prediction_gradients(ctx, ctx.rng("search-pred"))
+    if not ctx.failures:
+        output_inplace(ctx, ctx.rng("search-inplace"), deep=True)
 
 
 def replay(ctx, payload):
